@@ -1,11 +1,12 @@
 package main
 
 import (
-	"os"
 	"fmt"
 	"go/types"
 	"math/big"
+	"os"
 	"strings"
+	"time"
 )
 
 type execError struct{ msg string }
@@ -892,7 +893,7 @@ func (ex *Exec) guardLits(g *Term) map[int]bool {
 // syntactically (a value merged at a join whose condition the path has since decided).
 func (ex *Exec) underGuard(st *PState, v Value) Value {
 	t, ok := v.(*Term)
-	if !ok || t.op != "ite" || st.g == nil || st.g.IsConst() {
+	if !ok || t.op != "ite" || st.g == nil || st.g.IsConst() || ex.cfg.Opts["underguard"] == "" {
 		return v
 	}
 	lits := ex.guardLits(st.g)
@@ -951,7 +952,7 @@ func (ex *Exec) underGuard(st *PState, v Value) Value {
 			t = t.args[1]
 		} else if r < 0 {
 			t = t.args[2]
-		} else if sr := ex.guardDecides(st, t.args[0]); sr > 0 {
+		} else if sr := ex.guardDecidesConstAlt(st, t); sr > 0 {
 			t = t.args[1]
 		} else if sr < 0 {
 			t = t.args[2]
@@ -967,15 +968,29 @@ func (ex *Exec) underGuard(st *PState, v Value) Value {
 
 // guardDecides asks the solver whether the path guard fixes the value of c (cached; bounded number
 // of distinct questions per run).
+// guardDecidesConstAlt restricts the solver question to merged values with a constant alternative
+// (a default left behind by an abandoned path), the case that matters for re-reading decoded data.
+func (ex *Exec) guardDecidesConstAlt(st *PState, t *Term) int {
+	if !t.args[1].IsConst() && !t.args[2].IsConst() {
+		return 0
+	}
+	return ex.guardDecides(st, t.args[0])
+}
+
 func (ex *Exec) guardDecides(st *PState, c *Term) int {
 	if ex.solver == nil || ex.initRunningAny() {
 		return 0
 	}
+	if ex.guardDecideSecs > 20 {
+		return 0
+	}
+	t0 := time.Now()
+	defer func() { ex.guardDecideSecs += time.Since(t0).Seconds() }()
 	key := [2]int{st.g.id, c.id}
 	if r, ok := ex.guardDecideCache[key]; ok {
 		return r
 	}
-	if len(ex.guardDecideCache) >= 256 {
+	if len(ex.guardDecideCache) >= 64 {
 		return 0
 	}
 	r := 0
